@@ -520,6 +520,12 @@ def run(ctx: Ctx) -> int:
             ok = any(pol and isinstance(t, ast.Compare) and isinstance(t.ops[0], ast.Eq) and isinstance(t.comparators[0], ast.Dict) and not t.comparators[0].keys for t, pol in at)
             ctx.oblige("C01.g", ok, s_, "an emptied init_args entry is removed only when it is empty" if ok else "init_args removed from a class spec although not empty", fn=dd)
     ctx.floor("C01.g", n_del, 2)
+    # whether the value names the same class as the default is a comparison of two import-path STRINGS: by equality
+    cp_cmp = [n_ for n_ in ast.walk(dd) if isinstance(n_, ast.Compare) and len(n_.ops) == 1 and "class_path" in ast.unparse(n_.left) and "class_path" in ast.unparse(n_.comparators[0])]
+    ctx.floor("C01.g-class-path-comparison", len(cp_cmp), 1)
+    for n_ in cp_cmp:
+        ok = isinstance(n_.ops[0], (ast.Eq, ast.NotEq))
+        ctx.oblige("C01.g", ok, n_, "class paths are compared by equality" if ok else f"`{ast.unparse(n_)}` compares two class-path strings by identity: equal paths that are different string objects count as a changed class, the reference defaults are recomputed from the class signature, and an init arg that equals the CLASS default but differs from the argument's own default is dropped from the skip_default dump - it parses back to the argument's default", fn=dd)
     recs = [c for c in calls_in(dd) if call_leaf(c) == "_dump_delete_default_entries"]
     ctx.floor("C01.g-recursions", len(recs), 1)
     for c in recs:
